@@ -185,6 +185,21 @@ CHECKS = {
             rapid("random", "TestC12Random", {"checks": 30000, "shards": 4}, {"checks": 300000, "shards": 16, "timeout": 6000}),
         ],
     },
+    "C14": {
+        "cli": True,
+        "technique": "rapid random generation of (inputs, binary, flag combination, mode), differential oracle = the library called in process with the translated options; metamorphic relations -o == stdout, stdin == file, diff | -p == b",
+        "level_text": "Both binaries (and the top-level binary with -v2=false against the v1 library) are run on generated JSON / YAML files under generated flag combinations: stdout must be byte-identical to the "
+                      "library's rendering, the exit status 0/1/2 must follow the library result, -o must put exactly those bytes into the file and nothing on stdout, stdin must be equivalent to a file, the printed diff "
+                      "fed to -p must reproduce b (jd, patch, merge formats; JSON and YAML), -t translations must equal the library's and -git-diff-driver must print the diff of arguments 2 and 5 and exit 0. Exploration over sampled configurations.",
+        "level_note": "The web UI (-port) and the GitHub action wrapper are not started. The merge round trip for a non-object a and b = {} is the listed finding D17. Each binary is compared with its own library (v1 honours precision differently from v2).",
+        "rule": "diff mode 70% (then -o, stdin, -p, -p -o, -p stdin runs on the same case), translate 20% (6 translations, 12% with a mutated input), git-diff-driver 10%; binary in {v2/jd, top-level, top-level -v2=false}; option set in "
+                "{list, set, mset, setkeys:id, merge, set+merge, mset+merge, precision}; -f jd|patch, -yaml, -color. Non-trivial: at least one flag and a non-empty diff (translate: a successful translation of a non-empty input); distinct by the full case.",
+        "assumptions": ["flag -> option translation as in the README usage text; Precision(p) is always passed, as both mains do"],
+        "legs": [
+            rapid("random", "TestC14Random", {"checks": 70, "shards": 8, "shrinktime": "15s"}, {"checks": 1500, "shards": 16, "timeout": 6000}),
+            rapid("precision", "TestC14Precision", {"checks": 20000, "shards": 2}, {"checks": 200000, "shards": 8, "timeout": 6000}),
+        ],
+    },
     "C15": {
         "cli": True,
         "technique": "model-based generation of call histories over read-only API calls (rapid-drawn operation sequences), invariant = every earlier observation still holds; repetition legs for map-order determinism in process and across fresh processes",
